@@ -259,7 +259,7 @@ def _expr(draw, model, env, depth):
         el = elem_of(t)
         if el is None:
             return src, t
-        k = draw(st.integers(0, 6))
+        k = draw(st.integers(0, 8))
         p = draw(st.sampled_from(["a", "b", "e", "j"]))
         e2 = [(n, tt) for n, tt in env if n != p] + [(p, el)]
         if k == 0:
